@@ -63,3 +63,18 @@ def unit_tables(d):
 def pick(ms, dims):
     """Among alternative meanings pick those with the wanted dimension."""
     return [m for m in (ms or []) if m.dims == tuple(dims)]
+
+
+def choose_meaning(symbol, dims):
+    """The exact meaning of a unit symbol for a unit type with the declared dimension exponents `dims`.
+    The declared dimensions only disambiguate symbols that have alternatives (e.g. 'lb' as mass or force).  When no
+    alternative has the declared dimensions but the symbol has one magnitude anyway, that magnitude is returned with
+    dims_agree=False: the symbol still says what the unit is, and whether the declaration is right is C06's question.
+    Returns (meaning or None, dims_agree).  Raises symbols.ParseError."""
+    ms = S.meanings(symbol)
+    with_dims = [m for m in ms if m.dims == tuple(dims)]
+    if len({(m.mag, m.pi) for m in with_dims}) == 1:
+        return with_dims[0], True
+    if not with_dims and len({(m.mag, m.pi) for m in ms}) == 1:
+        return ms[0], False
+    return None, False
